@@ -7,7 +7,9 @@
      BlockDepSafe       when a kernel operation is issued (A-HW3: job f of the operation and the job k
                         places from the end of the previous kernel operation overlap iff f + k < BLOCKDEP),
      LutRule            (previous kernel operation reads a SHRAM range the next one overwrites => BLOCKDEP 0).
-   Violations are accumulated per trace id so one run reports every offending stream.
+   Violations are *printed* (one "VIOL" line per offending state) rather than accumulated in a state
+   variable: with nondeterministic completions an accumulating history variable would multiply the state
+   space by every subset of violations found so far (a stream with many hazards made TLC time out).
    Event records (ndjson):
      {"t","e":"Hdr","maxdma"}                                   start of a stream: queues empty
      {"t","e":"Wait","q":"k"|"d","n"}
@@ -21,9 +23,8 @@ MaxKern == 2
 VARIABLES l,        \* next trace line
           kq, dq,   \* hardware queues: sequences of trace line numbers of Op events
           maxdma,   \* DMA queue depth of the accelerator of the current stream
-          prevk,    \* line number of the previous kernel operation of this stream (0 = none)
-          viol
-vars == <<l, kq, dq, maxdma, prevk, viol>>
+          prevk     \* line number of the previous kernel operation of this stream (0 = none)
+vars == <<l, kq, dq, maxdma, prevk>>
 
 S(seq) == {seq[i] : i \in 1..Len(seq)}
 R(i) == S(Trace[i].R)
@@ -44,36 +45,33 @@ BlockDepViol(e) ==
         IN (IF bad THEN {<<e.t, "BlockDepSafe", e.i, e.bd>>} ELSE {})
            \cup (IF lut THEN {<<e.t, "LutRule", e.i, e.bd>>} ELSE {})
 
-Init == l = 1 /\ kq = <<>> /\ dq = <<>> /\ maxdma = 1 /\ prevk = 0 /\ viol = {}
+Tell(V) == V = {} \/ PrintT(<<"VIOL", ToJson(V)>>)
+
+Init == l = 1 /\ kq = <<>> /\ dq = <<>> /\ maxdma = 1 /\ prevk = 0
 
 Hdr == /\ Ev.e = "Hdr"
        /\ kq' = <<>> /\ dq' = <<>> /\ maxdma' = Ev.maxdma /\ prevk' = 0
-       /\ l' = l + 1 /\ UNCHANGED viol
+       /\ l' = l + 1
 Wait == /\ Ev.e = "Wait"
         /\ IF Ev.q = "k" THEN HW!KernelWait(Ev.n) ELSE HW!DmaWait(Ev.n)
-        /\ l' = l + 1 /\ UNCHANGED <<maxdma, prevk, viol>>
+        /\ l' = l + 1 /\ UNCHANGED <<maxdma, prevk>>
 Op == /\ Ev.e = "Op"
       /\ IF Ev.q = "k" THEN HW!IssueKernel(l) ELSE HW!IssueDma(l, maxdma)
       /\ prevk' = IF Ev.q = "k" THEN l ELSE prevk
-      /\ viol' = viol \cup BlockDepViol(Ev)
+      /\ Tell(BlockDepViol(Ev))
       /\ l' = l + 1 /\ UNCHANGED maxdma
 Stop == /\ Ev.e = "Stop"                     \* the stream ends; remaining operations drain
         /\ kq' = <<>> /\ dq' = <<>>
-        /\ l' = l + 1 /\ UNCHANGED <<maxdma, prevk, viol>>
-DoneK == HW!CompleteKernel /\ UNCHANGED <<l, maxdma, prevk, viol>>
-DoneD == HW!CompleteDma /\ UNCHANGED <<l, maxdma, prevk, viol>>
+        /\ l' = l + 1 /\ UNCHANGED <<maxdma, prevk>>
+DoneK == HW!CompleteKernel /\ UNCHANGED <<l, maxdma, prevk>>
+DoneD == HW!CompleteDma /\ UNCHANGED <<l, maxdma, prevk>>
 
-(* hazards are recorded as soon as the state that exhibits them is reached *)
-Record == /\ Hazards \ viol # {}
-          /\ viol' = viol \cup Hazards
-          /\ UNCHANGED <<l, kq, dq, maxdma, prevk>>
-
-Next == \/ Record
-        \/ /\ Hazards \ viol = {}
-           /\ \/ (l <= Len(Trace) /\ (Hdr \/ Wait \/ Op \/ Stop))
-              \/ DoneK \/ DoneD
+Next == \/ (l <= Len(Trace) /\ (Hdr \/ Wait \/ Op \/ Stop))
+        \/ DoneK \/ DoneD
 Spec == Init /\ [][Next]_vars
 
 Consumed == TLCGet("stats").diameter >= Len(Trace) + 1
-Report == (l = Len(Trace) + 1 /\ kq = <<>> /\ dq = <<>>) => PrintT(<<"VERDICT", ToJson(viol)>>)
+(* evaluated in every reachable state: the hazards of that state are reported *)
+HazardReport == Tell(Hazards)
+Report == (l = Len(Trace) + 1 /\ kq = <<>> /\ dq = <<>>) => PrintT(<<"VERDICT", "[]">>)
 =============================================================================
